@@ -74,7 +74,7 @@ def decode_case(data):
         elif k == 7:
             # padding towards the 1024 boundary
             cur = sum(len(p) for p in parts)
-            target = 1024 + dec.below(81) - 40 - dec.below(3) * 20
+            target = (10240 if dec.below(6) == 0 else 1024) + dec.below(81) - 40 - dec.below(3) * 20
             if cur < target:
                 pad = dec.pick([b" ", b"x", b"<!-- pad -->", b"<p>"])
                 parts.append((pad * ((target - cur) // len(pad) + 1))[:target - cur])
